@@ -124,6 +124,7 @@ theorem step_error (s : St) (op : Op) :
     · split <;> simp [firstOf_nil]
     · simp [firstOf_nil]
   | ctrlAbort id => simp only [step]; split <;> simp [abort_error, firstOf_nil]
+  | ctrlAbortText => simp only [step]; split <;> simp [abort_error, firstOf_nil]
   | ctrlShutdown => simp only [step]; split <;> simp [abort_error, firstOf_nil]
   | armCalc a =>
     simp only [step]
